@@ -543,6 +543,71 @@ def generate(api):
                 % (n1, res, bound, lit(ma.group(1)), st['r'], fx(msa.group(1), {'a': ('a', 'f32')}, want='int')))
     section('arithmetic', arith)
 
+    # ---------------------------------------------------------------- convolve_matrix.rs (extension round 4)
+    def convolve():
+        cv = strip_comments(body_of(api.rd('crates/resvg/src/filter/convolve_matrix.rs'), 'apply'))
+        sub = lambda t: t.replace('matrix.divisor().get()', 'divisor').replace('matrix.bias()', 'bias')
+        inits = sorted(re.findall(r"let\s+mut\s+new_([rgba])\s*=\s*0\.0\s*;", cv))
+        if inits != ['a', 'b', 'g', 'r']:
+            raise Bad("convolve: accumulators are not all initialised with 0.0: %r" % inits)
+        acc = {}
+        for c in 'rgb':
+            m = re.search(r"\bnew_%s\s*\+=\s*([^;]*);" % c, cv)
+            if not m:
+                raise Bad("convolve: accumulation of new_%s not found" % c)
+            acc[c] = m.group(1)
+        m = re.search(r"if\s+!matrix\.preserve_alpha\(\)\s*\{\s*new_a\s*\+=\s*([^;]*);\s*\}", cv)
+        if not m:
+            raise Bad("convolve: guarded accumulation of new_a not found")
+        acc['a'] = m.group(1)
+        if len(re.findall(r"new_[rgba]\s*\+=", cv)) != 4:
+            raise Bad("convolve: unexpected accumulation statements")
+        same_for_channels(acc, 'convolve accumulation')
+        term = fx(acc['r'], {'p.r': ('c', 'int'), 'k': ('k', 'f32')})
+        m = re.search(r"if\s+matrix\.preserve_alpha\(\)\s*\{\s*new_a\s*=\s*([^;]*);\s*\}\s*else\s*\{\s*new_a\s*=\s*([^;]*);\s*\}\s*"
+                      r"let\s+bounded_new_a\s*=\s*([^;]*);", cv)
+        if not m:
+            raise Bad("convolve: computation of new_a / bounded_new_a changed shape")
+        a_pres = fx(m.group(1), {'in_p.a': ('in_a', 'int')})
+        a_plain = fx(sub(m.group(2)), {k: (k, 'f32') for k in ('new_a', 'divisor', 'bias')})
+        bounded = fx(m.group(3), {'new_a': ('new_a', 'f32')}, funs=funs)
+        m = re.search(r"let\s+calc\s*=\s*\|x\|\s*\{\s*let\s+x\s*=\s*([^;]*);\s*let\s+x\s*=\s*if\s+matrix\.preserve_alpha\(\)\s*\{([^{};]*)\}\s*else\s*\{([^{};]*)\}\s*;"
+                      r"\s*(\([^;{}]*\)\s*as\s+u8)\s*\}\s*;", cv)
+        if not m:
+            raise Bad("convolve: calc closure changed shape")
+        envx = {k: (k, 'f32') for k in ('x', 'divisor', 'bias', 'new_a', 'bounded_new_a')}
+        cx = fx(sub(m.group(1)), envx)
+        c_pres = fx(m.group(2), envx, funs=funs)
+        c_plain = fx(m.group(3), envx, funs=funs)
+        c_store = fx(m.group(4), envx, want='int')
+        for c in 'rgb':
+            if not re.search(r"out_p\.%s\s*=\s*calc\(new_%s\)\s*;" % (c, c), cv):
+                raise Bad("convolve: out_p.%s is not calc(new_%s)" % (c, c))
+        m = re.search(r"out_p\.a\s*=\s*(\([^;]*as\s+u8)\s*;", cv)
+        if not m or len(re.findall(r"out_p\.[rgba]\s*=", cv)) != 4:
+            raise Bad("convolve: stores changed")
+        a_store = fx(m.group(1), {'bounded_new_a': ('bounded_new_a', 'f32')}, want='int')
+        # filter/mod.rs :: apply_convolve_matrix: demultiply only under preserve_alpha, no multiply afterwards
+        body = strip_comments(body_of(mod, 'apply_convolve_matrix'))
+        calls = [c for c in re.findall(r"(?<![\w.])((?:\w+::)?\w+)\s*\(", body) if c in STEP_NAMES]
+        if calls != ['demultiply_alpha', 'convolve_matrix::apply'] or not re.search(
+                r"if\s+fe\.preserve_alpha\(\)\s*\{\s*demultiply_alpha\(pixmap\.data_mut\(\)\.as_rgba_mut\(\)\);\s*\}\s*convolve_matrix::apply\(", body):
+            raise Bad("apply_convolve_matrix: pass order changed: %r" % calls)
+        return ("(* convolve_matrix.rs :: apply (per output pixel; the window sums are folds of cv_term from 0.0) *)\n"
+                "Definition cv_term (c : Z) (k : f32) : f32 := %s.\n"
+                "Definition cv_alpha_preserve (in_a : Z) : f32 := %s.\n"
+                "Definition cv_alpha_plain (new_a divisor bias : f32) : f32 := %s.\n"
+                "Definition cv_bounded_a (new_a : f32) : f32 := %s.\n"
+                "Definition cv_x (x divisor bias new_a : f32) : f32 := %s.\n"
+                "Definition cv_calc_preserve (x bounded_new_a : f32) : f32 := %s.\n"
+                "Definition cv_calc_plain (x bounded_new_a : f32) : f32 := %s.\n"
+                "Definition cv_store (x : f32) : Z := %s.\n"
+                "Definition cv_store_a (bounded_new_a : f32) : Z := %s.\n"
+                "(* filter/mod.rs :: apply_convolve_matrix *)\n"
+                "Definition apply_convolve_steps (preserve_alpha : bool) : list step := if preserve_alpha then [StDemul; StKernel] else [StKernel].\n"
+                % (term, a_pres, a_plain, bounded, cx, c_pres, c_plain, c_store, a_store))
+    section('convolve', convolve)
+
     # ---------------------------------------------------------------- early returns (identity primitives)
     def guard(text, names):
         """`a.approx_zero_ulps(4) && b.approx_eq_ulps(&0.0, 4)` -> Gallina bool over approx_zero4"""
